@@ -7,9 +7,12 @@ import xml.etree.ElementTree as ET
 base = json.load(open("/root/.vp/BASELINE.json"))
 with tempfile.TemporaryDirectory() as d:
     out = os.path.join(d, "junit.xml")
-    cmd = base["cmd"].replace("<file>", out)
+    repo = sys.argv[sys.argv.index("--repo") + 1] if "--repo" in sys.argv else "/repo"
+    cmd = base["cmd"].replace("<file>", out).replace("cd /repo", f"cd {repo}")
     env = dict(os.environ)
     env.pop("ODC_GEO_VERIF", None)
+    if repo != "/repo":
+        env["PYTHONPATH"] = repo
     p = subprocess.run(cmd, shell=True, capture_output=True, text=True, env=env)
     tree = ET.parse(out)
 passed = set()
